@@ -6,8 +6,10 @@ import (
 	"fmt"
 	"io"
 	"net/http"
+	"runtime"
 	"strconv"
 	"strings"
+	"sync"
 	"testing"
 	"time"
 
@@ -468,6 +470,62 @@ var propOverlap = hx.Prop[OCase]{
 		hx.SortForUnordered(w.Store, model)
 		if err := hx.CmpE2E(w.Store, model, nil); err != nil {
 			o.Failf(pid+":overlap-content", "[%s, %d sessions, one mailbox=%v] %v", c.Backend, len(c.Sizes), c.Same, err)
+		}
+		// several readers of one message at once (a slow POP3 download while the web UI shows the
+		// source): each must get the whole message
+		if !o.Failed() {
+			box := "shared"
+			if !c.Same {
+				box = "o0"
+			}
+			ms, _ := w.Store.GetMessages(box)
+			for i, sm := range ms {
+				if i >= 3 {
+					break
+				}
+				whole, err := hx.ReadSource(sm)
+				if err != nil {
+					o.Failf(pid+":overlap-content", "ReadSource: %v", err)
+					break
+				}
+				var rwg sync.WaitGroup
+				var rmu sync.Mutex
+				var bad []string
+				for r := 0; r < 4; r++ {
+					rwg.Add(1)
+					go func(r int) {
+						defer rwg.Done()
+						rd, err := sm.Source()
+						if err != nil {
+							rmu.Lock()
+							bad = append(bad, err.Error())
+							rmu.Unlock()
+							return
+						}
+						defer rd.Close()
+						var got []byte
+						buf := make([]byte, 512+r*301)
+						for {
+							n, err := rd.Read(buf)
+							got = append(got, buf[:n]...)
+							if err != nil {
+								break
+							}
+							runtime.Gosched()
+						}
+						if !bytes.Equal(got, whole) {
+							rmu.Lock()
+							bad = append(bad, fmt.Sprintf("reader %d got %d of %d bytes", r, len(got), len(whole)))
+							rmu.Unlock()
+						}
+					}(r)
+				}
+				rwg.Wait()
+				if len(bad) > 0 {
+					o.Failf(pid+":concurrent-readers", "[%s] four simultaneous readers of message %s/%s (%d bytes): %v", c.Backend, box, sm.ID(), len(whole), bad)
+					break
+				}
+			}
 		}
 		o.NonTrivial = len(c.Sizes) >= 3 && big
 		o.Class("backend " + c.Backend)
